@@ -170,7 +170,7 @@ theorem tunedStep_step (env : CliEnv) (cfg : Cfg) (top : Option Nat) (sel : Str)
 /-! ## declaration lists -/
 
 def sameItem : Item → Item → Prop
-  | .decl d, .decl e => d.name = e.name ∧ d.lowerName = e.lowerName ∧ d.important = e.important
+  | .decl d, .decl e => d.name = e.name ∧ d.lowerName = e.lowerName ∧ d.important = e.important ∧ d.comments = e.comments
   | .other t ok, .other t' ok' => t = t' ∧ ok = ok'
   | _, _ => False
 
@@ -230,7 +230,7 @@ theorem sameShape_of_getElem? : (a b : List Item) → a.length = b.length →
 
 /-- the element-wise update `setDeclValue` performs -/
 def setVal (v : Str) : Item → Item
-  | .decl d => .decl { d with value := v }
+  | .decl d => .decl { d with value := v ++ d.comments }
   | o => o
 
 theorem sameItem_setVal (v : Str) (a : Item) : sameItem a (setVal v a) := by
@@ -315,7 +315,7 @@ theorem lastDecl_isSome_sameShape (n : Str) {a b : List Item} (h : sameShape a b
 
 theorem lastDeclSpec_setDeclValue (n : Str) (v : Str) : (items : List Item) → (ci : Nat) → (cd : Decl) →
     lastDeclSpec items n = some (ci, cd) →
-    lastDeclSpec (setDeclValue items ci v) n = some (ci, { cd with value := v })
+    lastDeclSpec (setDeclValue items ci v) n = some (ci, { cd with value := v ++ cd.comments })
   | [], _, _, h => by simp [lastDeclSpec] at h
   | x :: xs, ci, cd, h => by
     simp only [lastDeclSpec] at h
@@ -341,7 +341,7 @@ theorem lastDeclSpec_setDeclValue (n : Str) (v : Str) : (items : List Item) → 
 
 theorem lastDecl_setDeclValue (n : Str) (v : Str) (items : List Item) (ci : Nat) (cd : Decl)
     (h : lastDecl items n = some (ci, cd)) :
-    lastDecl (setDeclValue items ci v) n = some (ci, { cd with value := v }) := by
+    lastDecl (setDeclValue items ci v) n = some (ci, { cd with value := v ++ cd.comments }) := by
   rw [lastDecl_eq_spec] at h ⊢; exact lastDeclSpec_setDeclValue n v items ci cd h
 
 theorem lastDeclSpec_getElem? (n : Str) : (items : List Item) → (ci : Nat) → (cd : Decl) →
@@ -1294,7 +1294,7 @@ theorem tunedStep_ok (env : CliEnv) (cfg : Cfg) (top : Option Nat) (sel : Str) (
     ((viaVarOf env st (strip env cd.value) = none ∧
         items' = setDeclValue (seenItems top items0 st) ci (evalOf env cfg st (seenItems top items0 st) cd).tuned ∧
         lastDecl items' "color".toList =
-          some (ci, { cd with value := (evalOf env cfg st (seenItems top items0 st) cd).tuned }) ∧
+          some (ci, { cd with value := (evalOf env cfg st (seenItems top items0 st) cd).tuned ++ cd.comments }) ∧
         st'.vars = st.vars ∧
         (∀ i, top = some i → getRoot st i ≠ none → getRoot st' i = some items') ∧
         (sharedOf top st = none → st'.rootDecls = st.rootDecls)) ∨
